@@ -91,7 +91,11 @@ impl Decimal {
     pub(crate) fn to_sign_extended_bytes_with_len(&self, len: usize) -> AvroResult<Vec<u8>> {
         let sign_byte = 0xFF * u8::from(self.value.sign() == Sign::Minus);
         let mut decimal_bytes = vec![sign_byte; len];
-        let raw_bytes = self.value.to_signed_bytes_be();
+        // Zero has no magnitude bytes: it fits every width, including a zero-length one
+        let raw_bytes = match self.value.sign() {
+            Sign::NoSign => Vec::new(),
+            _ => self.value.to_signed_bytes_be(),
+        };
         let num_raw_bytes = raw_bytes.len();
         let start_byte_index = len.checked_sub(num_raw_bytes).ok_or(Details::SignExtend {
             requested: len,
